@@ -333,6 +333,8 @@ class Ctx:
         self.extra: dict = {}
         self._replay_n = 0
         self.known = load_known_findings()
+        self.deferred: list = []
+        self.oracle_only = False
         self.driver: Driver | None = None
 
     # ---- statistics ----
